@@ -94,7 +94,6 @@ YAML_TB = [
     "hand-written models lean/ScrutModel/Model/Duration.lean (humantime 2.4 format_duration/parse_duration incl. checked u64 arithmetic) and Model/ConfigRender.lean (TestCaseConfig::to_yaml_one_liner, yaml_quoted = serde_json string quoting, yaml_plain_or_quoted; parseFlow = the flow-mapping subset of YAML with libyaml's reader check, plain/double-quoted scalar scanning, 1024-byte simple-key rule, serde_yaml scalar resolution and the typed layer of TestCaseConfig incl. parse_duration_opt and TestCaseWait::parse), tied to the code by behavioural correspondence only",
     "serde_yaml 0.9.34 / unsafe-libyaml 0.2.11 / serde_json / humantime are trusted as the reference the model is compared with; inputs containing YAML line-break characters are outside the modelled subset (both sides answer `outside`)",
     "front-matter (serde_yaml block emitter for DocumentConfig) and the code-fence embedding (MarkdownTestCaseGenerator -> MarkdownParser) are checked by direct oracle on the real code only, not modelled",
-    "the general statement parseFlow (toOneLiner c) = ok c is NOT a theorem (only durations, quoting and concrete instances are proved); for whole configurations the evidence is the exhaustive/sampled oracle on the real code plus model agreement",
     RUSTC,
 ]
 YAML_RULE = (
@@ -335,7 +334,7 @@ MANIFEST_TEXT = {
         "technique": "Lean 4 theorems on an executable model of the Cram/line parser (round trip for documents by construction + loop invariants for all texts) + exhaustive differential correspondence",
     },
     "C06": {
-        "text": "Machine-checked for all documents: the Markdown parser model never reaches a panic (every slice of extract_code_block_start is on a character boundary, every line_index-1 is defined: C06_no_crash); the tokenizer always runs to the end and its tokens partition the document - every line in exactly one token, in order, with its own index, closing line = first line starting with the opening fence (C06_tokens_cover); unterminated front-matter, foreign and scrut blocks hold all remaining lines (C06_unterminated_*). For every document made of prose lines (anything that is not a fence start or ---) and scrut blocks (any fence length, optional {config}, comments, $ line, > lines, expectation lines, optional exit code) the parser yields exactly one test per block, in order, with the shell expression, expectation texts, exit code, configuration, 1-based line number of the $ line and title as written (C06_wellformed, C06_wellformed_lines, C06_wellformed_cores); inserting a prose line changes neither count, order nor content (C06_prose_inert). PARTIAL: front-matter, foreign blocks between items, blocks without command and exit codes between expectation lines are outside the proved grammar; for them 'parse(render d) = d.tests' is decided by the by-construction oracle on generated documents and all their line-prefixes. Tie to code: 1.04M documents per quick run (exhaustive <= 5 lines over a 15-line alphabet, exhaustive fence lines, AST-directed, prefixes, malformed) through the real MarkdownParser with 0 disagreements. Four stricter readings found by this check (C06:state-leak, C06:bare-long-fence, C06:info-string-whitespace, C06:config-dropped) were repaired by fix: commits; their witnesses stay in the harness as regression cases and as closed Lean examples.",
+        "text": "Machine-checked for all documents: the Markdown parser model never reaches a panic (every slice of extract_code_block_start is on a character boundary, every line_index-1 is defined: C06_no_crash); the tokenizer always runs to the end and its tokens partition the document - every line in exactly one token, in order, with its own index, closing line = first line starting with the opening fence (C06_tokens_cover); unterminated front-matter, foreign and scrut blocks hold all remaining lines (C06_unterminated_*). For every document of the generator's grammar - prose lines (anything that is not a fence start), front-matter while no content has started (YAML opaque), foreign code blocks (any fence length, closing line = any line starting with the opening fence, e.g. a longer fence; body may hold $ lines, shorter fences, ---), scrut blocks without command, scrut blocks with {config}, comments, $ line, > lines, expectation lines with at most one exit code line anywhere - the parser yields exactly the front-matter texts and one test per block with a command, in order, with the shell expression, expectation texts, exit code, configuration text, 1-based line number of the $ line and title as written (C06_wellformed, C06_wellformed_lines, C06_wellformed_cores; the title logic across foreign blocks and command-less blocks is stated in expectedTests); inserting a prose line, a foreign block or a command-less block behind the front-matter changes neither the document configuration nor count, order and content of the tests (C06_prose_inert, C06_other_blocks_inert, C06_inert_items). PARTIAL: documents that end in an unterminated construct are covered at token level (C06_unterminated_*) and by the by-construction oracle on all line-prefixes of generated documents, not by C06_wellformed. Tie to code: 1.04M documents per quick run (exhaustive <= 5 lines over a 15-line alphabet, exhaustive fence lines, AST-directed, prefixes, malformed) through the real MarkdownParser with 0 disagreements. Four stricter readings found by this check (C06:state-leak, C06:bare-long-fence, C06:info-string-whitespace, C06:config-dropped) were repaired by fix: commits; their witnesses stay in the harness as regression cases and as closed Lean examples.",
         "design_ref": "DESIGN.md §6 C06",
         "note": "Trusted: Lean kernel + 3 standard axioms, the correspondence harness, statement reading. Expectation grammar (C08), YAML (C17), config layering (C16) and \\p{L} are parameters fed from the real code per case. Defects repaired by fix: commits a8558a7, 2f2d0a7, 0557cd9, 41f3a85 (before this check) and d36f745, d82a4b7, 0c1f918 (found by it).",
         "technique": "Lean 4 theorems on an executable model of tokenizer+parser+LineParser + differential correspondence (exhaustive small scope, AST-directed by-construction oracle, prefixes, malformed)",
@@ -353,10 +352,10 @@ MANIFEST_TEXT = {
         "technique": "Lean 4 theorems on executable models of template rendering, CRLF replacement and the divider protocol + differential correspondence with real processes (cat/replay/capture shells, real bash) + direct byte/exit-code oracles",
     },
     "C17": {
-        "text": "Machine-checked for all values: humantime's parse_duration reads back exactly what format_duration writes for every Duration (C17_duration_roundtrip: no error, overflow or panic); the quoted form written by yaml_quoted (JSON quoting + \\uXXXX for DEL, C1, U+2028/2029, U+FFFE/FFFF) is a complete double-quoted YAML scalar with exactly the original characters, also in front of arbitrary following text (C17_quote_roundtrip, C17_quoted_scalar_in_context); the flow parser (reader check, line breaks, key/value scanning, nested mapping, 1024-byte key rule) reads back any rendered list of key: value pieces whose plain scalars are tokens (C17_rendered_ast_reads_back); and parseFlow(toOneLiner c) = c for every configuration over output_stream, keep_crlf, timeout, detached, strip_ansi_escaping (C17_one_liner_scalars). For skip_document_code, wait and environment the full statement is proved on concrete instances only (C17_one_liner_example, C17_one_liner_unreadable_chars) and otherwise CHECKED: every subset of keys, an 82-string alphabet in every string position and all name x value pairs, random configs through the real to_yaml_one_liner + serde_yaml (direct oracle) with the model agreeing byte for byte on rendering and on parsing. Open findings: environment names over 1024 bytes do not read back (C17_fails_on_long_name, C17:long-key); a total_timeout of 900 whole seconds is not serialised in front-matter (C17:default-total-timeout-not-serialised). Front-matter and the code-fence embedding are oracle-only.",
+        "text": "Machine-checked for ALL configurations of the model's config type (C17_one_liner): any subset of the 8 keys, any stream/booleans/i32 skip code, any Duration, wait in both forms with any path, environment with arbitrary names and values (quotes, backslashes, colons, braces, commas, #, blanks, control characters, any Unicode) is read back from its one-line `{...}` form exactly, under the decidable guard Renderable = durations are Durations (secs < 2^64, nanos < 10^9), skip code is an i32, every environment name renders to a key of at most 1024 UTF-8 bytes. Each conjunct is shown necessary by a witness theorem (C17_guard_secs, C17_guard_nanos, C17_guard_skip_code, C17_guard_long_name + C17_fails_on_long_name); non-vacuity: C17_renderable_example. Ingredients, each for all values: humantime parse(format d) = d (C17_duration_roundtrip), yaml_quoted is inverted by the double-quoted scalar scanner in any context (C17_quote_roundtrip, C17_quoted_scalar_in_context), the flow parser reads back any rendered pieces whose plain scalars are tokens (C17_rendered_ast_reads_back). The model (renderer, humantime, flow-YAML subset, serde typed layer) is tied to the real to_yaml_one_liner / serde_yaml / humantime on every run: every key subset, an 82-string alphabet in every string position and all name x value pairs, names of 1020-1027 bytes, random configs and grammar-generated flow mappings, plus the direct round-trip oracle on the real code. Open findings: environment names over 1024 bytes do not read back (C17:long-key, excluded by the guard); a total_timeout of 900 whole seconds is not serialised in front-matter (C17:default-total-timeout-not-serialised). Front-matter and the code-fence embedding are oracle-only.",
         "design_ref": "DESIGN.md §6 C17",
-        "note": "Trusted: kernel + axioms, harness, serde_yaml/libyaml/serde_json/humantime as reference. Partial: the general theorem for skip code / wait / environment is reduced to four listed lemmas (see Props/C17.lean) but not proved. Defects repaired by fix: ccd71db (unescaped quotes/backslashes), d9da776 (characters YAML cannot read back).",
-        "technique": "Lean 4 theorems on executable models of humantime and of the one-liner renderer / flow-YAML subset + differential correspondence with serde_yaml + direct round-trip oracle on the real code",
+        "note": "Trusted: kernel + axioms, harness, serde_yaml/libyaml/serde_json/humantime as the reference the model is compared with (parseFlow is a model of serde_yaml on the flow subset, not serde_yaml itself); inputs with YAML line-break characters are outside the modelled parser subset (never produced by the renderer: proved). Defects repaired by fix: ccd71db (unescaped quotes/backslashes), d9da776 (characters YAML cannot read back).",
+        "technique": "Lean 4 theorems on executable models of humantime and of the one-liner renderer / flow-YAML subset / serde typed layer + differential correspondence with serde_yaml + direct round-trip oracle on the real code",
     },
     "C12": {
         "text": "PARTIAL. Machine-checked: (1) for ANY shell semantics and carrier, if restoring what was persisted is observationally equivalent (CarrierTransparent), one-process-per-test execution of any history yields exactly the outputs of a single session, and detached steps leave nothing behind (C12_refines_single_session, C12_detached_leaves_nothing); (2) for the variable carrier as the template implements it, the refinement holds for every history that creates no read-only variable and never unsets an inherited variable (C12_vars_carried_partial); both excluded classes are proved to deviate (witness theorems) and are listed as known findings, reproduced against real bash on every run. That bash + the template are transparent for the other state classes (functions, aliases, shopt/set, arrays, cwd, dirstack, quoting) is sampled on every run against a single bash session (961 exhaustive pairs + seeded longer histories), not proved.",
